@@ -67,6 +67,13 @@ class C02(Prop):
                     yield {"k": "rot", "kind": kind, "g": g, "ins": allp, "layout": LAY[(j + len(kind)) % 4]}
                 if n == 2:
                     yield {"k": "rot", "kind": "list", "g": g[:1] + g[-1:], "qs": [1 + j % 2], "ins": allp, "layout": LAY[j % 4]}
+        # (a3) lists of length 0 and 1
+        for n in (1, 2, 3):
+            for j, g in enumerate(enum.herm(n)[::5]):
+                yield {"k": "rot", "kind": "list", "g": g, "ins": [], "n": n}
+                yield {"k": "rot", "kind": "list", "g": g, "ins": [enum.paulis(n)[(7 * j + 3) % (4 ** n * 4)]]}
+                if n >= 2:
+                    yield {"k": "rot", "kind": "list", "g": g[:1] + g[-1:], "qs": [n], "ins": [], "n": n}
         # (b) masked, N = 3 (and N = 2 single-qubit masks)
         for n in (2, 3):
             allp = enum.paulis(n)
@@ -155,7 +162,7 @@ class C02(Prop):
     def _rot(self, scn, be):
         kind, g, ins = scn["kind"], scn["g"], scn["ins"]
         rec = {"op": "rot", "kind": kind, "g": g, "ins": ins}
-        n = len(ins[0]) - 1
+        n = scn["n"] if "n" in scn else len(ins[0]) - 1
         qs = scn.get("qs")
         if qs:
             rec["qs"] = qs
@@ -166,7 +173,7 @@ class C02(Prop):
             if lay:
                 rec["layout"] = lay
             if kind == "list":
-                L = be.plist(ins)
+                L = be.plist(ins, n)
                 if lay:
                     L = be.relayout(L, lay)
                 L.rotate_by(G, mk) if qs else L.rotate_by(G)
